@@ -54,7 +54,21 @@ func bodyImage(b Body, env *TypeEnv) map[string]J {
 func pathTagName(path string) (name, title string) {
 	for _, seg := range strings.Split(path, "/") {
 		if seg != "" && seg != "." {
-			return "@" + seg, "/" + seg
+			// the name must be a legal identifier and different for different segments: "_" is doubled, every byte outside the
+			// unreserved URL characters is written as "_XX"
+			var sb strings.Builder
+			for i := 0; i < len(seg); i++ {
+				c := seg[i]
+				switch {
+				case c == '_':
+					sb.WriteString("__")
+				case c >= 'a' && c <= 'z', c >= 'A' && c <= 'Z', c >= '0' && c <= '9', strings.IndexByte("-.~$&+:=@", c) >= 0:
+					sb.WriteByte(c)
+				default:
+					sb.WriteString(fmt.Sprintf("_%02X", c))
+				}
+			}
+			return "@" + sb.String(), "/" + seg
 		}
 	}
 	return "@_", "/"
